@@ -647,7 +647,7 @@ func genSquare(cls, n int, rng *vk.SplitMix) mat {
 		step := 1 + rng.Intn(3)
 		for i := 0; i < n; i++ {
 			for j := 0; j < n; j++ {
-				g.d[i*n+j] = math.Ldexp(g.d[i*n+j], step*(j-i))
+				g.d[i*n+j] = math.Ldexp(g.d[i*n+j], gexp(step, j-i, n-1))
 			}
 		}
 		return g
@@ -804,7 +804,7 @@ func genRect(cls, m, n int, rng *vk.SplitMix) mat {
 		step := 1 + rng.Intn(3)
 		for i := 0; i < m; i++ {
 			for j := 0; j < n; j++ {
-				g.d[i*n+j] = math.Ldexp(g.d[i*n+j], -step*(i+j))
+				g.d[i*n+j] = math.Ldexp(g.d[i*n+j], -gexp(step, i+j, m+n-2))
 			}
 		}
 		return g
@@ -1273,7 +1273,7 @@ func genSchur(n, mode int, rng *vk.SplitMix) mat {
 	if mode == 3 {
 		for i := 0; i < n; i++ {
 			for j := i; j < n; j++ {
-				t.d[i*n+j] = math.Ldexp(t.d[i*n+j], -2*i)
+				t.d[i*n+j] = math.Ldexp(t.d[i*n+j], -gexp(2, i, n-1))
 			}
 		}
 	}
@@ -1285,7 +1285,7 @@ func genSchur(n, mode int, rng *vk.SplitMix) mat {
 				b, c = -b, -c
 			}
 			if mode == 3 {
-				b, c = math.Ldexp(b, -2*i), math.Ldexp(c, -2*i)
+				b, c = math.Ldexp(b, -gexp(2, i, n-1)), math.Ldexp(c, -gexp(2, i, n-1))
 			}
 			t.d[i*n+i+1] = b
 			t.d[(i+1)*n+i] = c
@@ -1351,6 +1351,16 @@ func anyPad(p [5]int, k int) bool {
 		}
 	}
 	return false
+}
+
+// gexp returns the grading exponent step*idx, with the step reduced so that the
+// exponents stay within +-150 over idx in [-span, span]: the harness's own
+// products must not overflow and data scaled by 2^+-510 must stay normal (exact).
+func gexp(step, idx, span int) int {
+	if span*step <= 150 {
+		return step * idx
+	}
+	return int(math.Round(float64(idx) * 150 / float64(span)))
 }
 
 // pow2 returns 2^k exactly.
